@@ -29,6 +29,30 @@ OPS = [
 ]
 
 
+# second family (tools/mutation_sweep.py --extended): statement-level and structural single edits
+OPS2 = [
+    ('stmt', r'(?m)^[ \t]+(?!let |return |break|continue|\}|//)[A-Za-z_][\w.\[\]]*(?:\([^;\n]*\))? (?:\+|-|\*)?= [^;\n]*;\n', ['']),       # an assignment deleted
+    ('stmt', r'(?m)^[ \t]+(?!let |return )[A-Za-z_][\w.]*\.(?:push|push_back|pop_front|pop_back|sort|sort_unstable|dedup|extend|truncate|insert|clear)\([^;\n]*\);?\n', ['']),   # a mutating call deleted
+    ('compound', r' \+= ', [' -= ', ' = ']), ('compound', r' -= ', [' += ']),
+    ('plus1', r'(?<=[\w)\]]) \+ 1\b(?!\.)', ['', ' + 2']), ('plus1', r'(?<=[\w)\]]) - 1\b(?!\.)', ['', ' - 2']),
+    ('neg', r'\bif !(?=[\w(])', ['if ']), ('neg', r'\bwhile !(?=[\w(])', ['while ']),
+    ('neg', r'\bif (?![!l(]|let )([^{}\n]*?) \{', [r'if !(\1) {']),
+    ('lit2', r'(?<![\w.])2(?![\w.])', ['3', '1']),
+    ('iter', r'\.skip\((\w+)\)', [r'.skip(\1 + 1)']), ('iter', r'\.take\(([^()]*(?:\([^()]*\))?[^()]*)\)', [r'.take(\1 + 1)']),
+    ('iter', r'\.chain\(([^()]*(?:\([^()]*(?:\([^()]*\))?[^()]*\))?[^()]*)\)', ['']),
+    ('iter', r'\.peekable\(\)', ['.skip(1).peekable()']),
+    ('opt', r'\.unwrap_or\(([^()]*(?:\([^()]*\))?[^()]*)\)', [r'.unwrap_or(\1 + \1)']),
+    ('opt', r'\.ok\(\)\?', ['.ok().or(None)?']),
+    ('field', r'\bself\.budget\b', ['self.period']), ('field', r'\bself\.period\b', ['self.budget']),
+    ('field', r'\bself\.deadline\b', ['self.period']), ('field', r'\bself\.jitter\b', ['self.min_inter_arrival']),
+    ('field', r'\bself\.min_inter_arrival\b', ['self.jitter']),
+    ('ret', r'(?m)^[ \t]+return ([^;\n]*);\n', ['']),
+    ('arg', r'\bjobs_in_largest_known_distance\(\)', ['jobs_in_largest_known_distance() + 1']),
+    ('arg', r'\blargest_known_distance\(\)', ['largest_known_distance() + Duration::from(1)']),
+    ('cast', r'\b(\w+) as u64\b', [r'(\1 + 1) as u64']), ('cast', r'\b(\w+) as usize\b', [r'(\1 + 1) as usize']),
+]
+
+
 def source_files(repo, filters=()):
     out = []
     for root, _, files in os.walk(os.path.join(repo, 'src')):
@@ -76,14 +100,14 @@ def code_spans(text):
         yield (start, limit)
 
 
-def enumerate_mutants(repo, files):
+def enumerate_mutants(repo, files, ops=None):
     muts = []
     for rel in files:
         if not os.path.exists(os.path.join(repo, rel)):
             continue
         text = open(os.path.join(repo, rel)).read()
         spans = list(code_spans(text))
-        for name, rx, repls in OPS:
+        for name, rx, repls in (ops or OPS):
             for m in re.finditer(rx, text):
                 if not any(a <= m.start() and m.end() <= b for a, b in spans):
                     continue
